@@ -56,7 +56,7 @@ from . import c03_gen as gen
 LEVEL = "exploration"
 
 PARSE_BUDGET = 400  # calls of parser.parse allowed for ONE input (unchanged tree: measured max is far below)
-WALL_S = 2.0  # wall-clock alarm per input
+WALL_S = 2.0  # alarm per input, in CPU seconds of the worker (the machine may be shared), wall backstop 15 x that
 MAX_TERM_VIOLS_PER_WORKER = 12  # after that many budget/alarm aborts a worker stops exploring (cap is reported)
 
 BOUND = ("ok", "ctxm", "ev", "xs")
@@ -121,6 +121,7 @@ def _init_worker():
     if _DEVNULL is None:
         _DEVNULL = os.open(os.devnull, os.O_WRONLY)
     signal.signal(signal.SIGALRM, _on_alarm)
+    signal.signal(signal.SIGPROF, _on_alarm)
     p = _XSH.execer.parser
     if not getattr(p.parse, "_c03_counting", False):
         orig = p.parse
@@ -153,12 +154,14 @@ def guarded_parse(src, names=None):
     """-> ('tree', ast) | ('none',) | ('syntax', msg) | ('exc', type, function, msg) | ('budget', n) | ('alarm', s)"""
     _CNT[0] = 0
     ctx = set() if names is None else set(names)
-    t0 = time.perf_counter()
-    signal.setitimer(signal.ITIMER_REAL, WALL_S)
+    t0 = time.process_time()
+    signal.setitimer(signal.ITIMER_PROF, WALL_S)
+    signal.setitimer(signal.ITIMER_REAL, WALL_S * 15)
     try:
         try:
             tree = _XSH.execer.parse(src, ctx=ctx, user_names=(None if names is None else set(BOUND)))
         finally:
+            signal.setitimer(signal.ITIMER_PROF, 0)
             signal.setitimer(signal.ITIMER_REAL, 0)
         out = ("none",) if tree is None else ("tree", tree)
     except SyntaxError as e:
@@ -174,7 +177,7 @@ def guarded_parse(src, names=None):
     if out[0] in ("budget", "alarm"):
         _TERM_ABORTS[0] += 1
     _MAXCNT[0] = max(_MAXCNT[0], _CNT[0])
-    return out, _CNT[0], time.perf_counter() - t0
+    return out, _CNT[0], time.process_time() - t0
 
 
 _CTXNAMES = None
@@ -279,7 +282,7 @@ _FAILS = {}
 _MINI = {}
 _CONFIRM = {}
 _EXEC_LEFT = [0]
-MAX_DIFF_EXEC_PER_WORKER = 400  # pairs with differing trees that one worker will decide by execution
+MAX_DIFF_EXEC_PER_WORKER = 4000  # pairs with differing trees that one worker will decide by execution
 
 
 def run_settings(chain, full):
@@ -308,9 +311,15 @@ def compare_runs(chain, bare, expl, full):
     n = 0
     first = None
     for rcs, fl in run_settings(chain, full):
-        tb_ = execute(bare, rcs, fl)
-        te_ = execute(expl, rcs, fl)
-        n += 2
+        # threaded pipelines of the implementation are not perfectly repeatable (a closed-handle race in
+        # ProcProxyThread.wait shows up about once in 100 runs; another property's business): a difference counts
+        # only if it shows in three consecutive attempts
+        for attempt in range(3):
+            tb_ = execute(bare, rcs, fl)
+            te_ = execute(expl, rcs, fl)
+            n += 2
+            if tb_ == te_:
+                break
         if first is None:
             first = te_
         if tb_ != te_:
@@ -371,7 +380,7 @@ def check_pair(chain, pos, want_exec=False):
     if diff is not None:
         if same:
             raise common.ToolError(f"identical trees ran differently (harness nondeterminism): {bare!r} {diff}")
-        res.update(status="trace-diff", rcs=diff[0], flags=diff[1], trace_bare=diff[2], trace_explicit=diff[3])
+        res.update(status="trace-diff", sub=trace_subsig(diff[2], diff[3]), rcs=diff[0], flags=diff[1], trace_bare=diff[2], trace_explicit=diff[3])
         return res
     res["trace0"] = first
     res.update(status="agree-ast" if same else "agree-trace")
@@ -391,6 +400,32 @@ def confirm_boolop_mark(chain, pos):
 
 def has_bg_or_unrunnable(chain):
     return gen.has_bg(chain)
+
+
+def _subseq(a, b):
+    it = iter(b)
+    return all(x in it for x in a)
+
+
+def trace_subsig(tb, te):
+    """How the bare run departs from the hand-wrapped run (part of the failure signature)."""
+    nb, ne = [c[0] for c in tb["calls"]], [c[0] for c in te["calls"]]
+    if nb != ne:
+        if not nb:
+            return "runs-nothing"
+        if sorted(nb) == sorted(ne):
+            return "order"
+        if len(nb) < len(ne) and _subseq(nb, ne):
+            return "skips-command"
+        if len(nb) > len(ne) and _subseq(ne, nb):
+            return "extra-command"
+        return "other-commands"
+    for k, name in ((1, "argv"), (2, "stdin"), (3, "env")):
+        if [c[k] for c in tb["calls"]] != [c[k] for c in te["calls"]]:
+            return name
+    if tb["files"] != te["files"]:
+        return "files"
+    return "exc"
 
 
 def _first_diff(a, b):
@@ -450,24 +485,59 @@ def minimise(chain, pos, sig):
     return final
 
 
+def body_class(chain, pos):
+    """Does the bare logical line (with its `;` neighbours) parse as Python/xonsh WITHOUT recovery?  'needs-recovery'
+    lines are wrapped by the phase-1 retry loop, 'python-parsable' ones by the context-aware transformer."""
+    line = gen.render(chain, dict(pos, wrap=None), explicit=False)
+    _CNT[0] = 0
+    try:
+        _XSH.execer.parser.parse(line, filename="<c03>", mode="exec")
+        return "python-parsable"
+    except SyntaxError:
+        return "needs-recovery"
+    except Exception:  # noqa: BLE001
+        return "parser-error"
+
+
 def a_key(sig, mchain, mpos):
-    return f"A:{sig}:{gen.pos_label(mpos)}:{gen.render_line(mchain, explicit=False)}"
+    """<failure>:<position class>:<operators>:<special words/features>:<how the parser sees the line>, all taken from the
+    MINIMISED pair.  One root cause fails for many texts (any number of plain words, any indent ...), so the key
+    names classes, not the text; the text of the minimal pair is in the artefact."""
+    w = mpos["wrap"]
+    if w and w[0] == "oneline":
+        # a one-line compound statement whose body needs recovery is wrapped as a whole, whatever the body is
+        return f"A:{sig}:oneline-{w[1]}:body-{body_class(mchain, mpos)}"
+    return f"A:{sig}:{gen.pos_class(mchain, mpos)}:{gen.ops_class(mchain)}:{gen.feature_class(mchain)}:{body_class(mchain, mpos)}"
+
+
+CLAUSES = {
+    "bare-rejected": "bare line rejected although its hand-wrapped form is accepted",
+    "explicit-rejected": "bare line accepted although its hand-wrapped form is rejected",
+    "trace-diff": "bare line runs differently from its hand-wrapped form",
+    "boolop-mark": "bare chain operand is not compiled as a chain operand (runs differently from its hand-wrapped form under $XONSH_SUBPROC_CMD_RAISE_ERROR)",
+    "ast-diff-bg": "bare line with `&` compiles to a different program than its hand-wrapped form",
+    "internal": "detection raised an internal exception",
+    "hang": "detection did not terminate within the budget",
+}
 
 
 def _violation_for(chain, pos, res):
+    s = res["status"]
+    note = ""
+    if s == "ast-diff-bg":
+        # repair transform: the pair cannot be run because of `&`.  If the same pair WITHOUT `&` fails, the failure
+        # is attributed to that (runnable, minimisable) root cause; only if `&` is essential it gets an `&` key.
+        c2 = {"segs": [dict(sg, bg=False) for sg in chain["segs"]], "ops": chain["ops"]}
+        r2 = check_pair(c2, pos)
+        if r2["status"] in FAIL:
+            v = _violation_for(c2, pos, r2)
+            if v is not None:
+                v["case"].update(chain=chain, pos=pos, bare=res["bare"], explicit=res["explicit"])
+                v["note"] = "trees differ for the pair with `&` (not executed); attributed to the same pair without `&`, which fails: " + repr(r2["bare"])
+                return v
     sig = _sig(res)
     mchain, mpos = minimise(chain, pos, sig)
     key = a_key(sig, mchain, mpos)
-    s = res["status"]
-    clause = {
-        "bare-rejected": "bare line rejected although its hand-wrapped form is accepted",
-        "explicit-rejected": "bare line accepted although its hand-wrapped form is rejected",
-        "trace-diff": "bare line runs differently from its hand-wrapped form",
-        "boolop-mark": "bare chain operand is not compiled as a chain operand (differs from its hand-wrapped form under $XONSH_SUBPROC_CMD_RAISE_ERROR)",
-        "ast-diff-bg": "bare line with `&` compiles to a different program than its hand-wrapped form",
-        "internal": "detection raised an internal exception",
-        "hang": "detection did not terminate within the budget",
-    }[s]
     if s == "boolop-mark":
         d = confirm_boolop_mark(mchain, mpos)
         if d is None:
@@ -475,7 +545,7 @@ def _violation_for(chain, pos, res):
         obs = {"trees": res["detail"], "minimal_form_run": {"rcs": d[0], "RAISE_ERROR,CMD_RAISE_ERROR": d[1], "bare": d[2]}}
         exp = {"minimal_form_run": {"explicit": d[3]}}
     elif s == "trace-diff":
-        obs, exp = {"rcs": res["rcs"], "RAISE_ERROR,CMD_RAISE_ERROR": res["flags"], "bare": res["trace_bare"]}, {"explicit": res["trace_explicit"]}
+        obs, exp = {"how": res["sub"], "rcs": res["rcs"], "RAISE_ERROR,CMD_RAISE_ERROR": res["flags"], "bare": res["trace_bare"]}, {"explicit": res["trace_explicit"]}
     elif s == "ast-diff-bg":
         obs, exp = res["detail"]["bare"], res["detail"]["explicit"]
     elif s == "bare-rejected":
@@ -486,7 +556,7 @@ def _violation_for(chain, pos, res):
         obs, exp = res["detail"], "a tree or SyntaxError"
     return {
         "key": key,
-        "clause": clause,
+        "clause": CLAUSES[s],
         "case": {
             "part": "A",
             "chain": chain,
@@ -497,7 +567,7 @@ def _violation_for(chain, pos, res):
         },
         "observed": obs,
         "expected": exp,
-        "note": "",
+        "note": note,
     }
 
 
@@ -589,6 +659,18 @@ def b_minimise(s, kind, sig):
             o = b_outcome(c)
             if (o[0], o[1]) == (kind, sig):
                 cur, changed = c, True
+                break
+        if changed:
+            continue
+        # a bracketed group / longer piece replaced by the plain word `a` (shorter, so this terminates)
+        for ln in (2, 3, 4):
+            for i in range(len(cur) - ln + 1):
+                c = cur[:i] + "a" + cur[i + ln :]
+                o = b_outcome(c)
+                if (o[0], o[1]) == (kind, sig):
+                    cur, changed = c, True
+                    break
+            if changed:
                 break
         if changed:
             continue
@@ -704,6 +786,9 @@ def run(ctx):
         ctx.sample(s)
     ctx.sample({"part": "B", "max_parser_calls_input": mp["maxparses_in"], "calls": mp["maxparses"]})
     reached = na - sta.get("agree-rejected", 0)
+    undecided = sta.get("undecided", 0)
+    if undecided:
+        ctx.log(f"part A: execution cap hit - {undecided} pairs with differing trees were NOT decided (reported as cap, not as violations)")
     ctx.coverage.update(
         evaluations=na + nb,
         distinct_nontrivial=reached,
@@ -713,8 +798,12 @@ def run(ctx):
             "or the pair is in the execution slice); non-trivial = pairs where at least one side was accepted (reached the comparison). "
             "part B: every string of the stated lengths over the stated alphabets through Execer.parse(s, ctx=set()) under a parser-call budget and alarm"
         ),
-        exhaustive=(capped_a == 0 and capped_b == 0),
-        caps_hit={"part_a_pairs_skipped_after_termination_cap": capped_a, "part_b_strings_skipped_after_termination_cap": capped_b},
+        exhaustive=(capped_a == 0 and capped_b == 0 and undecided == 0),
+        caps_hit={
+            "part_a_pairs_skipped_after_termination_cap": capped_a,
+            "part_b_strings_skipped_after_termination_cap": capped_b,
+            "part_a_pairs_with_differing_trees_left_undecided_by_execution_cap": undecided,
+        },
         part_a_pairs=na,
         part_a_chains=len(items),
         part_a_blocks={b["id"]: {k: b[k] for k in ("segs", "words", "kf", "kp", "rich", "exec")} for b in _BLOCKS},
